@@ -93,6 +93,8 @@ def _worker_init() -> None:
         from detsim import runner  # pylint: disable=import-outside-toplevel
 
         runner.USE_ZYGOTE = True
+        if 'forml' in sys.modules:  # (an Engine A / B check: the image is complete - freeze it before the first job)
+            runner.start_zygote()
     except ImportError:
         pass
 
